@@ -3,7 +3,7 @@
 //! the real `Database` (SQL API); for every INSERT the ids it produced (RETURNING id, or the rows
 //! it left behind when it failed) are printed for coq/Corr/C12.v to judge.
 //!
-//! replay line:   pk=<0|1> wal=<0|1> ops=<op> <op> ...
+//! replay line:   pk=<0|1> wal=<0|1> [w=<16|32|64>] ops=<op> <op> ...      (w: id column SMALLINT / INTEGER / BIGINT, default 64)
 //!   I:r,r,...   INSERT INTO t (id, v) VALUES ... RETURNING id      r = n (NULL id) | <int> (explicit id), suffix ! = v NULL (violates NOT NULL)
 //!   O:k         INSERT INTO t (v) VALUES ... (k rows, id column absent) RETURNING id
 //!   T:r,r,...   Database::insert_batch("t", rows)                  (bulk-load API; r = n | <int>)
@@ -30,16 +30,20 @@ enum Op {
 }
 
 #[derive(Clone, Debug)]
-struct Hist { pk: bool, wal: bool, ops: Vec<Op> }
+struct Hist { pk: bool, wal: bool, w: u8, ops: Vec<Op> }
+
+fn wrap(w: u8, v: i64) -> i64 { match w { 16 => v as i16 as i64, 32 => v as i32 as i64, _ => v } }
 
 fn parse_hist(l: &str) -> Option<Hist> {
     let mut pk = true;
     let mut wal = false;
+    let mut w = 64u8;
     let mut ops = vec![];
     let (head, opstr) = match l.find("ops=") { Some(i) => (&l[..i], &l[i + 4..]), None => return None };
     for t in head.split_whitespace() {
         if let Some(v) = t.strip_prefix("pk=") { pk = v == "1"; }
         if let Some(v) = t.strip_prefix("wal=") { wal = v == "1"; }
+        if let Some(v) = t.strip_prefix("w=") { w = match v { "16" => 16, "32" => 32, _ => 64 }; }
     }
     for t in opstr.split_whitespace() {
         if t.starts_with("class=") { continue; }
@@ -62,11 +66,11 @@ fn parse_hist(l: &str) -> Option<Hist> {
         else if t == "X" { Op::Reopen } else { return None };
         ops.push(op);
     }
-    Some(Hist { pk, wal, ops })
+    Some(Hist { pk, wal, w, ops })
 }
 
 fn show_hist(h: &Hist) -> String {
-    let mut s = format!("pk={} wal={} ops=", h.pk as u8, h.wal as u8);
+    let mut s = format!("pk={} wal={} w={} ops=", h.pk as u8, h.wal as u8, h.w);
     for (i, op) in h.ops.iter().enumerate() {
         if i > 0 { s.push(' '); }
         match op {
@@ -97,7 +101,7 @@ fn show_hist(h: &Hist) -> String {
 /// what one operation showed
 #[derive(Clone, Debug)]
 enum Obs {
-    InsOk(Vec<i64>),          // RETURNING id, one per row
+    InsOk(Vec<i64>, Vec<i64>), // RETURNING id, one per row; the ids of those rows found in the table afterwards
     InsErr(Vec<i64>, String), // statement failed; ids of the rows of this statement that are in the table afterwards (row order)
     BatchOk(Vec<Option<i64>>),          // insert_batch returned Ok; id (or NULL) found in the table per row
     BatchErr(Vec<Option<i64>>, String), // insert_batch returned Err; ids of the rows of this call in the table afterwards
@@ -120,9 +124,10 @@ fn run_hist(h: &Hist, dir: &std::path::Path) -> Vec<Obs> {
     let path = dir.join("db");
     let mut obs = vec![];
     let mut db = match open_session(&path, true, h.wal) { Ok(d) => Some(d), Err(e) => { obs.push(Obs::Weird(e)); return obs; } };
-    let ddl = if h.pk { "CREATE TABLE t (id INTEGER PRIMARY KEY AUTO_INCREMENT, v INTEGER NOT NULL)" }
-              else { "CREATE TABLE t (id INTEGER AUTO_INCREMENT, v INTEGER NOT NULL)" };
-    if let Err(e) = db.as_ref().unwrap().execute(ddl) { obs.push(Obs::Weird(format!("ddl: {:#}", e))); return obs; }
+    let ty = match h.w { 16 => "SMALLINT", 32 => "INTEGER", _ => "BIGINT" };
+    let ddl = if h.pk { format!("CREATE TABLE t (id {} PRIMARY KEY AUTO_INCREMENT, v BIGINT NOT NULL)", ty) }
+              else { format!("CREATE TABLE t (id {} AUTO_INCREMENT, v BIGINT NOT NULL)", ty) };
+    if let Err(e) = db.as_ref().unwrap().execute(&ddl) { obs.push(Obs::Weird(format!("ddl: {:#}", e))); return obs; }
     for (si, op) in h.ops.iter().enumerate() {
         let d = match db.as_ref() { Some(d) => d, None => { obs.push(Obs::Weird("no database".into())); continue; } };
         let tag0 = (si as i64 + 1) * 1000;
@@ -153,8 +158,15 @@ fn run_hist(h: &Hist, dir: &std::path::Path) -> Vec<Obs> {
                     Caught::Panicked(m) => Obs::Weird(format!("panic: {}", m)),
                     Caught::Done(Ok(ExecuteResult::Insert { returned: Some(rows), .. })) => {
                         let ids: Vec<Option<i64>> = rows.iter().map(|r| r.values.get(0).and_then(int_of)).collect();
-                        if ids.iter().any(|x| x.is_none()) { Obs::Weird("non-integer id returned".into()) }
-                        else { Obs::InsOk(ids.into_iter().map(|x| x.unwrap()).collect()) }
+                        if ids.iter().any(|x| x.is_none()) || ids.len() != nrows { Obs::Weird("non-integer id returned / wrong number of rows returned".into()) }
+                        else {
+                            match rows_by_tag(d, tag0, nrows) {
+                                Ok(st) if st.len() == nrows && st.iter().all(|x| x.is_some()) =>
+                                    Obs::InsOk(ids.into_iter().map(|x| x.unwrap()).collect(), st.into_iter().map(|x| x.unwrap()).collect()),
+                                Ok(_) => Obs::Weird("rows of a successful INSERT not all found in the table / NULL id".into()),
+                                Err(e) => Obs::Weird(e),
+                            }
+                        }
                     }
                     Caught::Done(Ok(_)) => Obs::Weird("INSERT .. RETURNING gave no rows".into()),
                     Caught::Done(Err(e)) => {
@@ -319,62 +331,76 @@ fn rows_of(op: &Op) -> Option<Vec<Option<i64>>> {
     }
 }
 
-/// (observed trace, mirror agrees with the observation, first defect class entered)
-fn judge(h: &Hist, obs: &[Obs]) -> (Vec<(i64, bool)>, bool, u8) {
-    let mut trace = vec![];
+/// (observed traces [stored, returned], mirror agrees with the observation, first defect class entered)
+fn judge(h: &Hist, obs: &[Obs]) -> (Vec<(i64, bool)>, Vec<(i64, bool)>, bool, u8) {
+    let w = h.w;
+    let mut stored = vec![];
+    let mut returned = vec![];
     let mut agrees = obs.len() == h.ops.len();
     let mut class = 0u8;
+    let mut out_of_range = false;
     let mut ai = 0u64;
-    // insert_cached / insert_batch: ids stored as given, counter untouched
-    fn bulk(ai: u64, rows: &[Option<i64>], seen: &[Option<i64>], trace: &mut Vec<(i64, bool)>, agrees: &mut bool, class: &mut u8) {
+    let fits = |v: i64| wrap(w, v) == v;
+    // insert_cached / insert_batch: ids stored as given (wrapped to the column width), counter untouched
+    fn bulk(w: u8, ai: u64, rows: &[Option<i64>], seen: &[Option<i64>], tr: &mut Vec<(i64, bool)>, tr2: &mut Vec<(i64, bool)>, agrees: &mut bool, class: &mut u8, oor: &mut bool) {
         for (r, s) in rows.iter().zip(seen.iter()) {
-            if r != s { *agrees = false; }
-            if let Some(id) = s {
-                trace.push((*id, r.is_none()));
-                if *class == 0 && r.is_some() && (*id as i128) > ai as i128 { *class = 4; }
+            if r.map(|v| wrap(w, v)) != *s { *agrees = false; }
+            if let Some(id) = s { tr.push((*id, r.is_none())); tr2.push((*id, r.is_none())); }
+            if let Some(v) = r {
+                if *class == 0 && (*v as i128) > ai as i128 { *class = 4; }
+                if wrap(w, *v) != *v { *oor = true; }
             }
         }
     }
     for (op, o) in h.ops.iter().zip(obs.iter()) {
         if let Obs::Weird(_) = o { agrees = false; }
         match (op, o) {
-            (Op::Batch(rows), Obs::BatchOk(seen)) => { if seen.len() != rows.len() { agrees = false; } bulk(ai, rows, seen, &mut trace, &mut agrees, &mut class); }
-            (Op::Batch(rows), Obs::BatchErr(seen, _)) => { if seen.len() >= rows.len() { agrees = false; } bulk(ai, rows, seen, &mut trace, &mut agrees, &mut class); }
+            (Op::Batch(rows), Obs::BatchOk(seen)) => { if seen.len() != rows.len() { agrees = false; } bulk(w, ai, rows, seen, &mut stored, &mut returned, &mut agrees, &mut class, &mut out_of_range); }
+            (Op::Batch(rows), Obs::BatchErr(seen, _)) => { if seen.len() >= rows.len() { agrees = false; } bulk(w, ai, rows, seen, &mut stored, &mut returned, &mut agrees, &mut class, &mut out_of_range); }
             (Op::Prep(rows), Obs::Prep(outs)) => {
                 if outs.len() != rows.len() { agrees = false; }
                 for (j, (r, out)) in rows.iter().zip(outs.iter()).enumerate() {
                     if j == 0 {
                         let m = mirror_stmt(ai, &[*r], if out.is_none() { Some(0) } else { None });
                         match out {
-                            Some(Some(id)) => { trace.push((*id, r.is_none())); if !(m.ok && m.written.len() == 1 && m.written[0].0 == *id) { agrees = false; } }
+                            Some(Some(id)) => {
+                                stored.push((*id, r.is_none())); returned.push((*id, r.is_none()));
+                                if !(m.ok && m.written.len() == 1 && wrap(w, m.written[0].0) == *id) { agrees = false; }
+                            }
                             Some(None) => { agrees = false; }
                             None => { if m.ok { agrees = false; } }
                         }
+                        if m.written.iter().any(|x| !fits(x.0)) { out_of_range = true; }
                         if class == 0 { class = m.class; }
                         ai = m.ai;
                     } else if let Some(seen) = out {
-                        bulk(ai, &[*r], &[*seen], &mut trace, &mut agrees, &mut class);
+                        bulk(w, ai, &[*r], &[*seen], &mut stored, &mut returned, &mut agrees, &mut class, &mut out_of_range);
                     }
                 }
             }
             (Op::Batch(_), _) | (Op::Prep(_), _) => { agrees = false; }
             _ => {
                 let rows = match rows_of(op) { Some(r) => r, None => continue };
-                let (ids, ext) = match o {
-                    Obs::InsOk(ids) => (ids.clone(), None),
-                    Obs::InsErr(left, _) => (left.clone(), Some(left.len())),
+                let (ret, st, ext) = match o {
+                    Obs::InsOk(ids, st) => (Some(ids.clone()), st.clone(), None),
+                    Obs::InsErr(left, _) => (None, left.clone(), Some(left.len())),
                     _ => { agrees = false; continue; }
                 };
-                for (r, id) in rows.iter().zip(ids.iter()) { trace.push((*id, r.is_none())); }
+                for (r, id) in rows.iter().zip(st.iter()) { stored.push((*id, r.is_none())); }
+                for (r, id) in rows.iter().zip(ret.as_ref().unwrap_or(&st).iter()) { returned.push((*id, r.is_none())); }
                 let m = mirror_stmt(ai, &rows, ext);
                 let mids: Vec<i64> = m.written.iter().map(|x| x.0).collect();
-                if mids != ids || m.ok != ext.is_none() { agrees = false; }
+                let mst: Vec<i64> = mids.iter().map(|v| wrap(w, *v)).collect();
+                if mst != st || m.ok != ext.is_none() { agrees = false; }
+                if let Some(ret) = &ret { if *ret != mids { agrees = false; } }
+                if mids.iter().any(|v| !fits(*v)) { out_of_range = true; }
                 if class == 0 { class = m.class; }
                 ai = m.ai;
             }
         }
     }
-    (trace, agrees, class)
+    if class == 0 && out_of_range { class = 5; }
+    (stored, returned, agrees, class)
 }
 
 fn fresh_increasing(trace: &[(i64, bool)]) -> bool {
@@ -416,10 +442,13 @@ fn case_term(h: &Hist, obs: &[Obs]) -> String {
             _ => {}
         }
         let t = match (rows_of(op), o) {
-            (Some(rows), Obs::InsOk(ids)) | (Some(rows), Obs::InsErr(ids, _)) => {
-                let rs: Vec<String> = rows.iter().map(|r| match r { None => "RNull".to_string(), Some(v) => format!("RInt {}", zt(*v)) }).collect();
-                let ob = if matches!(o, Obs::InsOk(_)) { format!("IOk {}", zlist(ids)) } else { format!("IErr {}", zlist(ids)) };
-                format!("CIns {} ({})", clist(&rs), ob)
+            (Some(rows), Obs::InsOk(..)) | (Some(rows), Obs::InsErr(..)) => {
+                let ob = match o {
+                    Obs::InsOk(ids, st) => if ids == st { format!("IOk {}", zlist(ids)) } else { format!("IOkS {} {}", zlist(ids), zlist(st)) },
+                    Obs::InsErr(left, _) => format!("IErr {}", zlist(left)),
+                    _ => unreachable!(),
+                };
+                format!("CIns {} ({})", rows_term(&rows), ob)
             }
             (Some(_), _) => return "Weird".into(),
             (None, _) => match op {
@@ -429,7 +458,7 @@ fn case_term(h: &Hist, obs: &[Obs]) -> String {
         };
         items.push(t);
     }
-    format!("Case {} {} {}", cbool(h.pk), cbool(h.wal), clist(&items))
+    format!("Case {} {} {} {}", cbool(h.pk), cbool(h.wal), h.w, clist(&items))
 }
 
 // ------------------------------------------------------------------ generators
@@ -476,10 +505,10 @@ impl<'a> G<'a> {
         let n_null = if r < 6 { 0 } else { 1 + self.rng.below(3) as usize };
         let n_exp = if r < 6 { 1 + self.rng.below(2) as usize } else { self.rng.below(3) as usize };
         let mut rows = vec![(None, true); n_null];
-        let mut sim_ai = self.ai + n_null as u64;
+        let mut sim_ai = self.ai.saturating_add(n_null as u64);
         for _ in 0..n_exp {
-            let v = if self.rng.chance(1, 3) { match self.fresh_below() { Some(v) if !rows.iter().any(|r: &(Option<i64>, bool)| r.0 == Some(v)) => v, _ => sim_ai as i64 + 1 + self.rng.below(4) as i64 } }
-                    else { sim_ai as i64 + 1 + self.rng.below(4) as i64 };
+            let v = if self.rng.chance(1, 3) { match self.fresh_below() { Some(v) if !rows.iter().any(|r: &(Option<i64>, bool)| r.0 == Some(v)) => v, _ => (sim_ai.min((I64MAX - 10) as u64) as i64) + 1 + self.rng.below(4) as i64 } }
+                    else { (sim_ai.min((I64MAX - 10) as u64) as i64) + 1 + self.rng.below(4) as i64 };
             if rows.iter().any(|r| r.0 == Some(v)) { continue; }
             if v as u64 > sim_ai { sim_ai = v as u64; }
             rows.push((Some(v), true));
@@ -487,6 +516,7 @@ impl<'a> G<'a> {
         if rows.is_empty() { rows.push((None, true)); }
         self.push_ins(rows);
     }
+    #[allow(dead_code)]
     fn push_batch(&mut self, rows: Vec<Option<i64>>) {
         for r in &rows { if let Some(v) = r { self.used.push(*v); } }
         self.ops.push(Op::Batch(rows));
@@ -518,14 +548,14 @@ impl<'a> G<'a> {
     fn bulk_clean(&mut self) {
         let n = 1 + self.rng.below(3) as usize;
         let rows = self.bulk_rows_clean(n);
-        if self.rng.chance(1, 2) { self.push_batch(rows); }
-        else {
-            // first execution of a prepared statement is an ordinary INSERT: NULL or an id above the counter
-            let first = if self.rng.chance(2, 3) { None } else { Some(self.fresh_above()) };
-            let mut all = vec![first];
-            all.extend(rows);
-            self.push_prep(all);
-        }
+        // (insert_batch is not generated: rows it loads are not reliably visible to SELECT - with two
+        // BIGINT columns they never show up -, so what the column holds cannot be observed; `T:` stays
+        // in the replay language for probing)
+        // first execution of a prepared statement is an ordinary INSERT: NULL or an id above the counter
+        let first = if self.rng.chance(2, 3) { None } else { Some(self.fresh_above()) };
+        let mut all = vec![first];
+        all.extend(rows);
+        self.push_prep(all);
     }
     fn delete(&mut self) {
         if self.rng.chance(1, 6) { self.ops.push(Op::DelAll); } else { let v = self.some_used(); self.ops.push(Op::Del(v)); }
@@ -548,12 +578,13 @@ impl<'a> G<'a> {
 fn gen_history(rng: &mut Rng, thorough: bool) -> (Hist, &'static str) {
     let pk = rng.chance(3, 5);
     let wal = rng.chance(3, 10);
+    let w: u8 = match rng.below(10) { 0 => 16, 1 | 2 => 32, _ => 64 };
     let fam = rng.below(100);
     let maxlen = if thorough { 18 } else { 10 };
     let len = 2 + rng.below(maxlen) as usize;
     let mut g = G::new(rng);
     let kind: &'static str;
-    if fam < 27 {
+    if fam < 30 {
         kind = "clean_mix";           // inserts, deletes, transactions, reopen, bulk paths: all outside the classes
         while g.ops.len() < len {
             match g.rng.below(11) {
@@ -566,18 +597,18 @@ fn gen_history(rng: &mut Rng, thorough: bool) -> (Hist, &'static str) {
                 _ => { let v = g.some_used(); g.push_ins(vec![(Some(v), true)]); }   // explicit id the column held (duplicate / PK error)
             }
         }
-    } else if fam < 38 {
+    } else if fam < 41 {
         kind = "rollback";            // ids consumed inside rolled-back transactions, then more inserts
         while g.ops.len() < len {
             match g.rng.below(6) { 0 | 1 => g.txn(false), 2 => g.txn(true), 3 => g.delete(), _ => g.clean_insert() }
         }
         if g.rng.chance(1, 3) { g.ops.push(Op::Begin); g.clean_insert(); g.reopen(); }   // close with a transaction open
-    } else if fam < 50 {
+    } else if fam < 53 {
         kind = "reopen";              // several close + open cycles
         while g.ops.len() < len + 4 {
             match g.rng.below(6) { 0 | 1 => g.reopen(), 2 => g.delete(), 3 => { let c = g.rng.chance(1, 2); g.txn(c) } _ => g.clean_insert() }
         }
-    } else if fam < 61 {
+    } else if fam < 63 {
         kind = "failing_first_row";   // statements that fail before writing anything: no effect on the counter
         while g.ops.len() < len {
             match g.rng.below(6) {
@@ -587,7 +618,7 @@ fn gen_history(rng: &mut Rng, thorough: bool) -> (Hist, &'static str) {
                 _ => g.clean_insert(),
             }
         }
-    } else if fam < 70 {
+    } else if fam < 71 {
         kind = "failing_later_row";   // class 2 and its neighbourhood
         while g.ops.len() < len {
             match g.rng.below(6) {
@@ -624,12 +655,12 @@ fn gen_history(rng: &mut Rng, thorough: bool) -> (Hist, &'static str) {
                 _ => g.clean_insert(),
             }
         }
-    } else if fam < 90 {
+    } else if fam < 89 {
         kind = "bulk_paths";          // insert_batch and re-executed prepared INSERTs: class 4 and its neighbourhood
         while g.ops.len() < len {
             match g.rng.below(8) {
                 0 | 1 => g.bulk_clean(),
-                2 => { let v = g.fresh_above(); let mut rows = g.bulk_rows_clean(1); rows.push(Some(v)); g.push_batch(rows); }
+                2 => { let v = g.fresh_above(); let mut rows = vec![Some(g.fresh_above())]; rows.extend(g.bulk_rows_clean(1)); rows.push(Some(v + 7)); g.push_prep(rows); }
                 3 => { let v = g.fresh_above(); let k = g.rng.below(2) as usize; let mut rows = vec![None]; rows.extend(g.bulk_rows_clean(k)); rows.push(Some(v)); g.push_prep(rows); }
                 4 => g.delete(),
                 5 => { let c = g.rng.chance(1, 2); g.txn(c) }
@@ -637,21 +668,28 @@ fn gen_history(rng: &mut Rng, thorough: bool) -> (Hist, &'static str) {
             }
         }
     } else {
-        kind = "boundary";            // counters at 2^31, 2^32, 2^53 and around i64::MAX (class 3)
-        let b = *g.rng.pick(&[I64MAX, I64MAX, I64MAX - 1, I64MAX - 2, I64MAX - 3, 1 << 31, (1 << 31) - 1, 1 << 32, (1i64 << 32) - 1, 1 << 53, 0, 1i64 << 62]);
+        kind = "boundary";            // counters at the limits of the id column's type (class 5) and around i64::MAX (class 3)
+        let lim: i64 = match w { 16 => i16::MAX as i64, 32 => i32::MAX as i64, _ => I64MAX };
+        let b = match g.rng.below(12) {
+            0..=5 => lim - g.rng.below(4) as i64,
+            6 => if w == 64 { lim } else { lim + 1 },
+            7 => *g.rng.pick(&[(1i64 << 31) - 1, 1 << 31, (1i64 << 32) - 1, 1 << 32, 1 << 53, 1i64 << 62, 0, 32767, 32768]),
+            8 => I64MAX - g.rng.below(3) as i64,
+            _ => lim - 4 - g.rng.below(6) as i64,
+        };
         if g.rng.chance(1, 2) { g.clean_insert(); }
         g.push_ins(vec![(Some(b), true)]);
         let n = 1 + g.rng.below(4);
         for _ in 0..n {
-            match g.rng.below(5) { 0 => g.delete(), 1 => g.reopen(), _ => { let k = 1 + g.rng.below(2) as usize; g.push_absent(k); } }
+            match g.rng.below(6) { 0 => g.delete(), 1 => g.reopen(), 2 => g.bulk_clean(), _ => { let k = 1 + g.rng.below(2) as usize; g.push_absent(k); } }
         }
     }
     let ops = std::mem::take(&mut g.ops);
-    (Hist { pk, wal, ops }, kind)
+    (Hist { pk, wal, w, ops }, kind)
 }
 
 fn nontrivial(h: &Hist, obs: &[Obs]) -> bool {
-    let (trace, _, _) = judge(h, obs);
+    let (trace, _, _, _) = judge(h, obs);
     let gens = trace.iter().filter(|x| x.1).count();
     let eventful = h.ops.iter().any(|o| !matches!(o, Op::InsAbsent(_) | Op::Begin | Op::Commit))
         || obs.iter().any(|o| matches!(o, Obs::InsErr(..)));
@@ -660,6 +698,7 @@ fn nontrivial(h: &Hist, obs: &[Obs]) -> bool {
 
 fn main() {
     let a = Args::parse();
+    if std::env::var("C12_LOUD").is_ok() { let _ = std::panic::take_hook(); }
     match a.mode.as_str() {
         "gen" => gen(&a),
         "search" => search(&a),
@@ -676,14 +715,14 @@ fn gen(a: &Args) {
     if let Some(lines) = a.replay_lines() {
         for l in lines { if let Some(h) = parse_hist(&l) { hs.push((h, "replay")); } }
     } else {
-        let n = if a.thorough() { 6_000 } else { 500 };
+        let n = if a.thorough() { 4_000 } else { 500 };
         for _ in 0..n { hs.push(gen_history(&mut rng, a.thorough())); }
     }
     let all_obs = run_all(&hs.iter().map(|x| x.0.clone()).collect::<Vec<_>>(), "gen");
     let mut in_class = 0u64;
     let mut gens_total = 0u64;
     for ((h, kind), obs) in hs.into_iter().zip(all_obs.into_iter()) {
-        let (trace, _, class) = judge(&h, &obs);
+        let (trace, _, _, class) = judge(&h, &obs);
         gens_total += trace.iter().filter(|x| x.1).count() as u64;
         if class != 0 { in_class += 1; w.count(&format!("(in class {})", class), 1); }
         if obs.iter().any(|o| matches!(o, Obs::Weird(_))) { w.count("(weird)", 1); }
@@ -728,8 +767,8 @@ fn search(a: &Args) {
         let hs: Vec<Hist> = (0..400).map(|_| gen_history(&mut rng, true).0).collect();
         let all_obs = run_all(&hs, "search");
         for (h, obs) in hs.iter().zip(all_obs.iter()) {
-            let (trace, agrees, class) = judge(h, obs);
-            if !fresh_increasing(&trace) {
+            let (trace, ret, agrees, class) = judge(h, obs);
+            if !fresh_increasing(&trace) || !fresh_increasing(&ret) {
                 let c = if agrees { class } else { 0 };
                 fails.push(format!("{} class={}", show_hist(h), c));
             }
@@ -751,8 +790,8 @@ fn probe(a: &Args) {
                 let obs = run_hist(&h, &dir);
                 for (op, o) in h.ops.iter().zip(obs.iter()) { println!("   {:?} -> {:?}", op, o); }
                 if obs.len() != h.ops.len() { println!("   obs: {:?}", obs); }
-                let (trace, agrees, class) = judge(&h, &obs);
-                println!("   mirror_agrees={} class={} fresh_increasing={}", agrees, class, fresh_increasing(&trace));
+                let (trace, ret, agrees, class) = judge(&h, &obs);
+                println!("   mirror_agrees={} class={} fresh_increasing={}", agrees, class, fresh_increasing(&trace) && fresh_increasing(&ret));
                 println!("   {}", case_term(&h, &obs));
             }
         }
@@ -761,33 +800,18 @@ fn probe(a: &Args) {
 }
 
 fn probe2() {
-    for pk in [true, false] {
+    // what insert_batch rows look like when read back
+    for ddl in ["CREATE TABLE t (id BIGINT AUTO_INCREMENT, v BIGINT NOT NULL)", "CREATE TABLE t (id INTEGER AUTO_INCREMENT, v INTEGER NOT NULL)", "CREATE TABLE t (id INTEGER AUTO_INCREMENT, v BIGINT NOT NULL)"] {
         let dir = tmp_dir("probe2");
         let _ = std::fs::remove_dir_all(&dir);
         let db = Database::create(dir.join("db")).unwrap();
-        let ddl = if pk { "CREATE TABLE t (id INTEGER PRIMARY KEY AUTO_INCREMENT, v INTEGER NOT NULL)" } else { "CREATE TABLE t (id INTEGER AUTO_INCREMENT, v INTEGER NOT NULL)" };
         db.execute(ddl).unwrap();
-        let stmt = db.prepare("INSERT INTO t VALUES (?, ?)").unwrap();
-        let ids = [OwnedValue::Null, OwnedValue::Null, OwnedValue::Int(7), OwnedValue::Null];
-        for (i, id) in ids.iter().enumerate() {
-            let r = stmt.bind(id.clone()).bind(OwnedValue::Int(100 + i as i64)).execute(&db);
-            println!("pk={} exec {} id={:?} -> {:?}", pk, i, id, r.map(|_| "ok").map_err(|e| format!("{:#}", e)));
-            println!("    table: {:?}", db.query("SELECT id, v FROM t").map(|rows| rows.iter().map(|r| format!("{:?}", r.values)).collect::<Vec<_>>()));
-        }
-        let r = db.execute("INSERT INTO t (v) VALUES (200), (201), (202), (203), (204), (205), (206), (207) RETURNING id");
-        println!("  sql insert -> {:?}", r.map(|x| format!("{:?}", x)).map_err(|e| format!("{:#}", e)));
-        let stmt2 = db.prepare("INSERT INTO t (v) VALUES (?)").unwrap();
-        for i in 0..3 {
-            let r = stmt2.bind(OwnedValue::Int(300 + i)).execute(&db);
-            println!("  partial exec {} -> {:?}", i, r.map(|_| "ok").map_err(|e| format!("{:#}", e)));
-        }
-        println!("    table: {:?}", db.query("SELECT id, v FROM t").map(|rows| rows.iter().map(|r| format!("{:?}", r.values)).collect::<Vec<_>>()));
-        // insert_batch with explicit ids
-        let r = db.insert_batch("t", &[vec![OwnedValue::Int(50), OwnedValue::Int(400)], vec![OwnedValue::Null, OwnedValue::Int(401)]]);
+        println!("{}", ddl);
+        println!("  sql insert -> {:?}", db.execute("INSERT INTO t (v) VALUES (100) RETURNING id").map(|x| format!("{:?}", x)).map_err(|e| format!("{:#}", e)));
+        let r = db.insert_batch("t", &[vec![OwnedValue::Int(50), OwnedValue::Int(400)], vec![OwnedValue::Int(51), OwnedValue::Int(401)]]);
         println!("  insert_batch -> {:?}", r.map_err(|e| format!("{:#}", e)));
-        println!("    table: {:?}", db.query("SELECT id, v FROM t").map(|rows| rows.iter().map(|r| format!("{:?}", r.values)).collect::<Vec<_>>()));
-        let r = db.execute("INSERT INTO t (v) VALUES (500) RETURNING id");
-        println!("  sql insert -> {:?}", r.map(|x| format!("{:?}", x)).map_err(|e| format!("{:#}", e)));
+        println!("    table: {:?}", db.query("SELECT id, v FROM t").map(|rows| rows.iter().map(|r| format!("{:?}", r.values)).collect::<Vec<_>>()).map_err(|e| format!("{:#}", e)));
+        println!("    filtered: {:?}", db.query("SELECT id, v FROM t WHERE v >= 400 AND v < 402").map(|rows| rows.iter().map(|r| format!("{:?}", r.values)).collect::<Vec<_>>()).map_err(|e| format!("{:#}", e)));
         drop(db);
         let _ = std::fs::remove_dir_all(&dir);
     }
